@@ -1,10 +1,13 @@
 P = dict(
     proofs=["Proof_C19"],
     bin="egv_c19", trace="Trace_C19", level="model_checking",
-    mc=[dict(module="MC_C19", quick_cfg="MC_C19.cfg", thorough_cfg="MC_C19_thorough.cfg")],
+    mc=[dict(module="MC_C19", quick_cfg="MC_C19.cfg", thorough_cfg="MC_C19_thorough.cfg"),
+        # the 1 px outline rendered by the transcribed styled-triangle machine (EGThickTri) = the three edge lines
+        dict(module="MC_C02t", quick_cfg="MC_C19t.cfg", workers=8),
+        dict(module="MC_C02t", quick_cfg="MC_C19t_control.cfg", expect_violation=True, coverage=False, workers=4)],
     drift_checked=True,
     required_events=["tri", "pair", "poly"],
-    level_text="TLC steps the transcribed fill scanline iterator of Triangle::points() (one scanline per action) for every "
+    level_text="MC_C02t (EGThickTri, the styled-triangle scanline machine) shows for every vertex triple of a grid that the 1 px outline is exactly the union of the three edge lines and that no row is lost (control: two edges only); TLC steps the transcribed fill scanline iterator of Triangle::points() (one scanline per action) for every "
                "vertex multiset of a grid and the transcribed polyline::Points machine (one next() per action) for every "
                "short polyline of a grid, with the clauses of the property (exact integer geometry: closed triangle by cross "
                "products, distance <= 1 to an edge segment, all 6 vertex orders, shared-edge pairs, concatenation of segment "
